@@ -176,7 +176,8 @@ class C17(Check):
             "constructor, through authorization files and (strings) through signapp's argv; all "
             "vectors of 0..4 (quick) / 0..6 full + 7..10 with <=2 defects (thorough) signatures over "
             "{valid, truncated, wrong tag, trailing byte} plus single extra defects, each through "
-            "constructor, add_signature, file load and save/load; signapp message/key/manual/eth "
+            "constructor, add_signature, file load and save/load; signapp message (output path absent / holding an "
+            "older authorization with 0 or 2 signatures / garbage), key, manual, eth "
             "through main(); authorize_signer through adm_ledger.main() against threshold devices "
             "(k = 1..n, never), every fault kind at every exchange of the authorization dialogue, "
             "and a genuine N-of-M device.  Distinct = (route, input classes, verdict, device log shape).")
@@ -978,7 +979,8 @@ class C17(Check):
             if r.code != 0:
                 return
         if r.code != 0:
-            self.viol(vs, "wellformed-refused", "signapp-message:%s" % a.iname, "signapp_message",
+            self.viol(vs, "wellformed-refused", "signapp-message:%s" %
+                      ("over-existing-file" if a.pre else a.iname), "signapp_message",
                       args, {"exit": r.code, "out": r.out[-300:]}, {"exit": 0})
             return
         text = ref_text(h32, ri[1])
